@@ -80,7 +80,7 @@ package model
 //@   loop 1 invariant [ctx] fresh(cpy) && cpy != nil
 
 //@ func (*Weights).Merge
-//@   property C07 C18 C01 C11 C12 C13 C14
+//@   property C07 C18 C01 C11 C12 C13 C14 C03
 //@   panics_iff [overlap] exists k string :: k in *w && k in *other
 //@   ensures [union] fresh(result) && fresh(*result) && (forall k string :: (k in *result <==> (k in *w || k in *other)))
 //@   ensures [values] forall k string :: (k in *w ==> (*result)[k] == (*w)[k]) && (k in *other ==> (*result)[k] == (*other)[k])
@@ -182,7 +182,7 @@ package model
 //@   loop 1 invariant [filled] forall i int :: 0 <= i && i < iter ==> (*c)[i].Id in weights && result[i].Criterion == (*c)[i] && result[i].Weight == weights[(*c)[i].Id]
 
 //@ func (*Criteria).Add
-//@   property C07 C18 C09 C15 C20 C01 C19
+//@   property C07 C18 C09 C15 C20 C01 C19 C03
 //@   panics_iff [duplicate] exists k int :: 0 <= k && k < len(*c) && (*c)[k].Id == criterion.Id
 //@   ensures [appended] len(result) == len(*c) + 1 && result[len(*c)] == *criterion && forall k int :: 0 <= k && k < len(*c) ==> result[k] == (*c)[k]
 //@   loop 1 invariant [none] forall k int :: 0 <= k && k < iter ==> (*c)[k].Id != criterion.Id
@@ -370,7 +370,7 @@ package model
 //@   nopanic
 //@   ensures result == len(*c)
 //@ func (Criterion).Identifier
-//@   property C20 C01 C07 C11 C15 C18 C09
+//@   property C20 C01 C07 C11 C15 C18 C09 C03
 //@   nopanic
 //@   ensures result == c.Id
 //@ func (*WeightedCriterion).AsWeights
